@@ -337,7 +337,7 @@ def check(pid, tier, seed, replay=None, only=None):
     assumptions = []
     exhaustive = []
     # units are independent processes with their own output directories: run up to VERIF_UNIT_JOBS side by side
-    jobs = max(1, int(os.environ.get("VERIF_UNIT_JOBS", "4")))
+    jobs = max(1, int(os.environ.get("VERIF_UNIT_JOBS", "6")))
     if len(units) > 1 and jobs > 1:
         for u in units:
             build_cmd(u, tier, compile_only=True)  # generate the shared overlay / module files before the workers start
